@@ -491,6 +491,10 @@ SPECS["C15"] = {
          "reach": ["compared"],
          "quick": {"params": {"CMDS": 16}, "unwind": 60, "wall_s": 900},
          "thorough": {"params": {"CMDS": 24}, "unwind": 60, "wall_s": 3000}},
+        {"name": "H5-console-races", "pkg": "interpreter", "files": _C15, "fn": "VerifC15ConsoleRaces",
+         "what": "a console goroutine issues 2 of 9 debugger commands while a program thread runs: data races on the debugger's bookkeeping (happens-before pass, confirmed with go test -race)", "reach": ["both-done"],
+         "quick": {"params": {"P": 1}, "two_pass": True, "unwind": 60, "wall_s": 900},
+         "thorough": {"params": {"P": 2}, "two_pass": True, "unwind": 60, "wall_s": 3000}},
         {"name": "H4-breakpoint-book", "pkg": "interpreter", "files": _C15, "fn": "VerifC15BreakpointBook",
          "what": "2 (quick) / 3 (thorough) symbolic breakpoint commands (break, disablebreak, rmbreak line, rmbreak source) over 3 sources with names in a prefix relation x 2 lines, then a program whose source name is symbolic: suspensions equal the table",
          "reach": ["compared"],
